@@ -3,7 +3,10 @@
 // One in-process gRPC target (examples/grpc/server + reflection, recording interceptor, see
 // internal/a20) serves every case. Case kinds (blank separated fields, lists use , ; : | + =):
 //
-//	json <mode d|e> <shared 0|1> <clients> <ninst> <timeout_ms> <n> <entry>*n
+//	json <mode d|e|dr|er> <shared 0|1> <clients> <ninst> <timeout_ms> <n> <entry>*n
+//	    mode suffix r: the gun is configured with reflect_port = the port of a SECOND in-process server
+//	    (side-car: same service + reflection, recording separately); every call must still be recorded
+//	    by the target — calls the side-car received are appended to the observation as  sidecar=<n>
 //	    entry   = taghex;callhex;meta;payload
 //	    meta    = - | khex=vhex,…
 //	    payload = ~ (no payload key) | - ({}) | field,…   field = keyhex:kind:val
@@ -13,7 +16,7 @@
 //	            acquired and shot by gun j mod ninst, sequentially; observation per entry.
 //	    mode e: the same provider and gun factory under the real engine (startup once(ninst),
 //	            unlimited rps); observation = samples sorted by tag + calls sorted.
-//	scen <ninst> <timeout_ms> <order> <users> <calls> <scenarios>
+//	scen <ninst>[r] <timeout_ms> <order> <users> <calls> <scenarios>      (r: reflect_port as above)
 //	    order     = instance index per shot (comma list); shot j: instance order[j] acquires the
 //	                next scenario ammo from the real grpc/scenario provider and shoots it
 //	    users     = tokhex:idhex,…   (json variable source "users", consumed by [next])
@@ -79,6 +82,7 @@ func (r *recAggr) Report(s core.Sample) {
 
 var (
 	srv     *a20.Srv
+	side    *a20.Srv // reflection side-car on another port
 	fs      = afero.NewMemMapFs()
 	fileSeq int
 )
@@ -168,9 +172,24 @@ func callsStr(cs []a20.Call) string {
 	return strings.Join(out, "&") // more than one call for one shot is itself a finding
 }
 
-func gunConf(shared bool, clients int, timeoutMs int) grpcgun.GunConfig {
+func sidePort() int64 {
+	p, _ := strconv.ParseInt(side.Addr[strings.LastIndex(side.Addr, ":")+1:], 10, 64)
+	return p
+}
+
+func sideNote(s string) string {
+	if n := len(side.Drain()); n > 0 {
+		return s + fmt.Sprintf(" sidecar=%d", n)
+	}
+	return s
+}
+
+func gunConf(shared bool, clients int, timeoutMs int, reflect bool) grpcgun.GunConfig {
 	conf := grpcgun.DefaultGunConfig()
 	conf.Target = srv.Addr
+	if reflect {
+		conf.ReflectPort = sidePort()
+	}
 	conf.Timeout = time.Duration(timeoutMs) * time.Millisecond
 	conf.SharedClient.Enabled = shared
 	conf.SharedClient.ClientNumber = clients
@@ -178,7 +197,8 @@ func gunConf(shared bool, clients int, timeoutMs int) grpcgun.GunConfig {
 }
 
 func runJSON(f []string) string {
-	mode, shared := f[1], f[2] == "1"
+	reflect := strings.HasSuffix(f[1], "r")
+	mode, shared := strings.TrimSuffix(f[1], "r"), f[2] == "1"
 	clients, _ := strconv.Atoi(f[3])
 	ninst, _ := strconv.Atoi(f[4])
 	tmo, _ := strconv.Atoi(f[5])
@@ -192,7 +212,8 @@ func runJSON(f []string) string {
 	name := fmt.Sprintf("/ammo-%d.json", fileSeq)
 	_ = afero.WriteFile(fs, name, []byte(data.String()), 0o644)
 	defer fs.Remove(name)
-	conf := gunConf(shared, clients, tmo)
+	conf := gunConf(shared, clients, tmo, reflect)
+	side.Drain()
 	prov := grpcjson.NewProvider(fs, grpcjson.Config{File: name, Passes: 1})
 	log := zap.NewNop()
 	srv.Drain()
@@ -233,7 +254,7 @@ func runJSON(f []string) string {
 		if len(ag.s) == 0 {
 			ag.s = []string{"-"}
 		}
-		return res + " " + strings.Join(ag.s, ",") + " " + strings.Join(cs, "|")
+		return sideNote(res + " " + strings.Join(ag.s, ",") + " " + strings.Join(cs, "|"))
 	}
 
 	ctx, cancel := context.WithCancel(context.Background())
@@ -272,9 +293,9 @@ func runJSON(f []string) string {
 		out = append(out, cstr+";"+callsStr(srv.Drain()))
 	}
 	if len(out) == 0 {
-		return "-"
+		return sideNote("-")
 	}
-	return strings.Join(out, " ")
+	return sideNote(strings.Join(out, " "))
 }
 
 // ---- scenario ----
@@ -286,7 +307,8 @@ func runScen(f []string) string {
 		scenimport.Import(fs)
 		pluginconfig.AddHooks()
 	})
-	ninst, _ := strconv.Atoi(f[1])
+	reflect := strings.HasSuffix(f[1], "r")
+	ninst, _ := strconv.Atoi(strings.TrimSuffix(f[1], "r"))
 	tmo, _ := strconv.Atoi(f[2])
 	var order []int
 	for _, s := range strings.Split(f[3], ",") {
@@ -356,6 +378,10 @@ func runScen(f []string) string {
 	gconf := grpcscen.DefaultGunConfig()
 	gconf.Target = srv.Addr
 	gconf.Timeout = time.Duration(tmo) * time.Millisecond
+	if reflect {
+		gconf.ReflectPort = sidePort()
+	}
+	side.Drain()
 	wg := grpcscen.NewGun(gconf)
 	sd, err := wg.WarmUp(&warmup.Options{Log: log, Ctx: ctx})
 	if err != nil {
@@ -404,7 +430,7 @@ func runScen(f []string) string {
 		}
 		shots = append(shots, strings.Join(steps, "|"))
 	}
-	return strings.Join(shots, "#")
+	return sideNote(strings.Join(shots, "#"))
 }
 
 func runCase(c string) (res string) {
@@ -431,6 +457,11 @@ func main() {
 			panic(err)
 		}
 		defer srv.Stop()
+		side, err = a20.Start()
+		if err != nil {
+			panic(err)
+		}
+		defer side.Stop()
 		out := make([]string, len(cases))
 		for i, c := range cases {
 			out[i] = runCase(c)
